@@ -188,7 +188,9 @@ def monitorHist (sc : HScn) (entries : List String) : List (String × String) :=
         m := { m with shutdowns := m.shutdowns + 1, shutdownAt := some t }
       else if a2 == "pause" then
         -- (a new pause taken at the very instant of a resume: the held Flush() stays held until the loop is free)
-        if m.expectCycleAt == some t then m := { m with expectCycleAt := none, flushHeld := true }
+        if m.expectCycleAt == some t then
+          -- (unless the cycle has already run at this instant: then the Flush has been served)
+          m := { m with expectCycleAt := none, flushHeld := !(m.batches.any fun b => b.raisedAt == t) }
         if n3 != sc.pauseMs then m := m.add "C13" "pause-event-value"
         m := { m with pauseAt := some t, pauseEvents := m.pauseEvents + 1, paused := true, expectPause := false }
         if m.pauseEvents > m.pauseCalls then m := m.add "C13" "more-pauses-than-effective-calls"
